@@ -14,6 +14,8 @@ def gen_programs(ctx, quick):
     progs += r1.beh
     rd = ctx.tlc('ProgGenMC', 'ProgGen_derived.cfg', workers=1, timeout=1800)
     progs += rd.beh
+    rb = ctx.tlc('ProgGenMC', 'ProgGen_bool.cfg', workers=1, timeout=1800)
+    progs += rb.beh
     n_exh = len(progs)
     sims = [(2, 1200, 30), (3, 1500, 40), (4, 600, 50)] if quick else [(2, 6000, 30), (3, 8000, 40), (4, 4000, 50)]
     for L, num, depth in sims:
